@@ -28,6 +28,9 @@ def main():
         if not os.path.exists(patch):
             continue
         meta = json.load(open(os.path.join(d, "meta.json")))
+        if meta.get("retired"):
+            print(n, "retired:", meta["retired"][:100])
+            continue
         pid = meta["property"]
         r = sh(["git", "-C", REPO, "apply", patch])
         if r.returncode != 0:
